@@ -542,6 +542,14 @@ class Cells(Interface, Mapping, Callable, ItemFactory):
     def _is_defined(self):
         return not self._impl.is_derived()
 
+    @Interface.allow_none.setter
+    def allow_none(self, value):
+        value = value if value is None else bool(value)
+        if isinstance(self._impl, DynamicCellsImpl):
+            self._impl.allow_none = value
+        else:
+            self._impl.spmgr.set_cells_allow_none(self._impl, value)
+
     @Interface.doc.setter
     def doc(self, doc):
         self._impl.set_doc(doc, insert_indents=False)
@@ -662,6 +670,7 @@ class CellsImpl(*_cells_impl_base):
 
         if base:
             self.is_cached = base.is_cached
+            self.allow_none = base.allow_none
         else:
             self.is_cached = is_cached
 
